@@ -684,6 +684,13 @@ var numSpellings = func(s string) []string {
 	} else if len(c) > 1 && c[0] != '0' {
 		out = append(out, c[:1]+"_"+c[1:], c[:len(c)-1]+"_"+c[len(c)-1:])
 	}
+	if c != "" && c[0] >= '0' && c[0] <= '9' && !(len(c) > 1 && (c[1] == 'x' || c[1] == 'X' || c[1] == 'b' || c[1] == 'B')) {
+		// a leading zero separated by an underscore (0_17): if the tokenizer takes it, the
+		// formatter must not turn it into something the tokenizer refuses (017).
+		out = append(out, "0_"+c, "00_"+c, "0_0_"+c)
+	} else if len(c) > 2 {
+		out = append(out, c[:2]+"_"+c[2:], c[:2]+"0_"+c[2:])
+	}
 	return out
 }
 
